@@ -414,6 +414,7 @@ def perturb_move_to_another_field(rng, frag):
     if not cands:
         return None
     n, a, b = rng.choice(cands)
+    perturb_move_to_another_field.moved = (type(n), a, b)
     if a == 'args':
         n.keywords = [ast.keyword(arg='moved_here', value=n.args[0])]
         n.args = []
@@ -475,6 +476,13 @@ def run_program(ctx, rng, src, origin, foreign_patterns):
                 kind = perturb_move_to_another_field(rng, frag)
                 if kind and ast.unparse(ast.fix_missing_locations(cc.clone(frag))).replace(' ', '') in src.replace(' ', ''):
                     kind = None           # (the program happens to contain the moved form as well)
+                if kind:
+                    # ... or a node of the moved SHAPE (the same part present, the other one absent) that the generalised pattern
+                    # may describe just as well: then nothing can be said about "absent"
+                    cls, was, now = perturb_move_to_another_field.moved
+                    if cls is ast.Slice and any(isinstance(x, ast.Slice) and getattr(x, now) is not None and getattr(x, was) is None for x in ast.walk(tree)):
+                        kind = None
+                        ctx.count('moved_field_patterns_skipped_(the program has that shape elsewhere)')
             else:
                 kind = perturb_conflicting_placeholder(rng, frag)
             if kind is None:
